@@ -1,7 +1,7 @@
 """C03 — control flow, variable scoping, captures and includes behave as documented.
 
 M    TLC (MC_Render): the generator/semantics machine; InvWellEnded on the reference semantics itself.
-S→I  every well-formed program of <= MaxTok tokens of four themes (flow: if/elif/else/for/else/break/continue/
+S→I  every well-formed program of <= MaxTok tokens of five themes (flow: if/elif/else/for/else/break/continue/
      loop.*; scope: set/set_global/loop shadowing/include over four-scope shadowing contexts; capture: set-blocks,
      filter sections, includes inside captures, break inside loops inside captures; global: every way of assigning
      x -- set / set_global, expression and block form, with and without a filter -- inside and outside a loop, read
@@ -66,11 +66,11 @@ def run(tier):
     C = vp.Check("C03", tier, "model_checking")
     C.cov["rule"] = ("every complete program of <= MaxTok tokens over the theme's alphabet x every environment of the theme; "
                      "non-trivial = distinct (program, environment) whose reference result is specified (ok or error)")
-    mt = {"flow": 4, "scope": 4, "capture": 4, "global": 5} if tier == "quick" else {"flow": 5, "scope": 5, "capture": 5, "global": 6}
+    mt = {"flow": 4, "scope": 4, "capture": 4, "global": 5, "nest": 6} if tier == "quick" else {"flow": 5, "scope": 5, "capture": 5, "global": 6, "nest": 7}
     n = 0
-    for theme in ("flow", "scope", "capture", "global"):
-        # (the assignment theme repeats constructs whose VM steps the other three themes already validate: exact text only)
-        n += render_check.run_theme(C, theme, mt[theme], traced=(tier == "quick" and theme != "global"))
+    for theme in ("flow", "scope", "capture", "global", "nest"):
+        # (the assignment and nesting themes repeat constructs whose VM steps the other three themes already validate: exact text only)
+        n += render_check.run_theme(C, theme, mt[theme], traced=(tier == "quick" and theme not in ("global", "nest")), also_api=(theme == "scope"))
     if tier == "thorough":
         for theme in ("flow", "scope", "capture"):
             n += render_check.run_theme(C, theme, 9, traced=True, simulate=3000, depth=14, workers=1, tag="render-sim-" + theme)
